@@ -426,11 +426,16 @@ func roundFloats(n *lib.Node) *lib.Node {
 }
 
 // checkOutside compares the encoders with the reference on values the model does not cover and
-// classifies a mismatch that disappears under the named normalisation as the known finding.
+// classifies a mismatch that disappears under the named normalisation (or, for the interface nil
+// word, equals the reference with exactly that deviation) as the known finding.
 func checkOutside(c *c15Case, id string, norm func(*lib.Node) *lib.Node) {
 	o := c.spec.options()
 	arg := c.arg()
 	want := refTree(&o, reflect.ValueOf(arg), false)
+	devWant := ""
+	if id == "C15-iface-nil-word" {
+		devWant = (&refEnc{o: &o, nilWord: true}).value(reflect.ValueOf(arg), true).String()
+	}
 	rep.AddEval(1, 1)
 	rep.Count("outside."+id, 1)
 	for i := range encoders {
@@ -446,7 +451,7 @@ func checkOutside(c *c15Case, id string, norm func(*lib.Node) *lib.Node) {
 		wn, e2 := lib.ParseCanon(want)
 		rp := c.replay()
 		rp["encoder"], rp["implementation"], rp["reference"] = e.name, got, want
-		if e1 == nil && e2 == nil && norm(gn).String() == norm(wn).String() && lib.HasKnown(knownList, id) {
+		if (got == devWant || devWant == "" && e1 == nil && e2 == nil && norm(gn).String() == norm(wn).String()) && lib.HasKnown(knownList, id) {
 			rep.Add(lib.Finding{Kind: "known", KnownID: id, Class: "enc:" + e.name + ":" + id, Replay: rp,
 				What: fmt.Sprintf("%s describes %s, the value is %s", e.name, got, want)})
 		} else {
@@ -529,6 +534,21 @@ func runC15() error {
 				v2.Field(1).Set(reflect.ValueOf([]float32{lib.Pick(r, fs), lib.Pick(r, fs)}))
 				v2.Field(2).Set(reflect.ValueOf(map[string]float32{"k": lib.Pick(r, fs)}))
 				checkOutside(&c15Case{d: mustDescribe(rt2), v: v2, spec: optSpec{KeyExact: true}, byPtr: true}, "C15-float32-decompose", roundFloats)
+				// an interface whose data word is nil under omitempty
+				type one struct{ P *int }
+				rt3 := reflect.StructOf([]reflect.StructField{
+					{Name: "A", Type: anyType, Tag: `json:"a,omitempty"`}, {Name: "B", Type: anyType, Tag: `json:",omitempty"`},
+					{Name: "C", Type: anyType}})
+				v3 := reflect.New(rt3).Elem()
+				var np *int
+				seven := 7
+				words := []any{one{}, one{P: &seven}, [1]one{}, map[string]int(nil), map[string]int{}, np, &seven, nil, "s"}
+				for f := 0; f < 3; f++ {
+					if x := lib.Pick(r, words); x != nil {
+						v3.Field(f).Set(reflect.ValueOf(x))
+					}
+				}
+				checkOutside(&c15Case{d: mustDescribe(rt3), v: v3, spec: optSpec{UseTags: true, KeyExact: true}, byPtr: r.Bool()}, "C15-iface-nil-word", nil)
 			}
 		}(w)
 	}
